@@ -1,10 +1,31 @@
 import KawinV.Proto
-/-! driver verbs for C01 (stub: no verbs yet) -/
+import KawinV.Model.MassBalance
+/-! driver verbs for the mass-balance model (Float instance) -/
 namespace KawinV.Drv.C01
-open KawinV.Proto
+open KawinV.Proto KawinV.MB
+
+def phaseIn : P (PhaseIn Float) := do
+  let N ← flts; let R ← flts
+  let cols ← lst flts            -- per element: boundary table column (n+1 entries)
+  let vr ← flt; let vfac ← flt; let pvf ← flt; let inf ← bool
+  let pf ← flts; let old ← flts
+  pure { N := N, R := R, xb := cols.map midpoints, volRatio := vr, volumeFactor := vfac,
+         prevVolFrac := pvf, infinite := inf, prevFconc := pf, psdOld := old }
+
+def outStr (s : Slice Float) : String :=
+  let ph := s.phases.map (fun p => s!"{fout p.dens} {fout p.ravg} {fout p.volFrac} {flist p.fconc}")
+  s!"{s.phases.length} {" ".intercalate ph} {flist s.comp}"
+
+/-- mb.balance minDens minComp x0 prevComp phases… -/
+def balance : P String := do
+  let minDens ← flt; let minComp ← flt
+  let x0 ← flts; let prev ← flts
+  let ins ← lst phaseIn
+  pure (outStr (massBalance minDens minComp x0 prev ins))
 
 def handle (verb : String) : Option (P String) :=
   match verb with
+  | "mb.balance" => some balance
   | _ => none
 
 end KawinV.Drv.C01
